@@ -25,9 +25,9 @@ def classify(record) -> str:
     return (record.get("message") or "").split("::")[0].strip()[:60] or "c02"
 
 
-def _check_grammar(family, holes, perm, maxlen) -> None:
+def _check_grammar(family, holes, perm, maxlen, reverse=False) -> None:
     names = G.NAME_PERMS[perm]
-    g = G.instantiate(family, holes, names)
+    g = G.instantiate(family, holes, names, reverse)
     start = names["S"]
     if G.left_recursive(g):
         raise Reject()          # the property quantifies over non-left-recursive grammars
@@ -66,11 +66,14 @@ def _check_grammar(family, holes, perm, maxlen) -> None:
                 outcomes[smart] = repr(val)
             else:
                 outcomes[smart] = kind
+        for smart, parser in exact.items():
+            if parser.is_ambiguous():
+                raise Violation(f"ambiguity-flips :: grammar [{G.describe(g)}] smart={smart}: is_ambiguous() was False and became True after parsing {' '.join(toks)!r}")
         if len(set(outcomes.values())) > 1:
             raise Violation(f"smart-differs :: grammar [{G.describe(g)}] input {' '.join(toks)!r}: the two smart_factorization settings give different results {outcomes}")
 
 
-def h_family(h0: int, h1: int, h2: int, h3: int, h4: int, shard=None) -> None:
+def h_family(h0: int, h1: int, h2: int, h3: int, h4: int, rev: bool, shard=None) -> None:
     fam = shard["family"]
     n = G.n_holes(fam)
     dom = len(G.FAMILIES[fam][1])
@@ -83,8 +86,9 @@ def h_family(h0: int, h1: int, h2: int, h3: int, h4: int, shard=None) -> None:
     if "h0" in shard:
         reject_unless(h0 == shard["h0"])
     hs = [realize(x) for x in hs]
+    rev = realize(rev)
     with concrete():
-        _check_grammar(fam, hs[:n], shard.get("perm", 0), shard["maxlen"])
+        _check_grammar(fam, hs[:n], shard.get("perm", 0), shard["maxlen"], rev)
 
 
 def replay_h_family(record):
@@ -93,7 +97,7 @@ def replay_h_family(record):
     shard = record["fixed"]["shard"]
     n = G.n_holes(shard["family"])
     try:
-        _check_grammar(shard["family"], [a[f"h{i}"] for i in range(5)][:n], shard.get("perm", 0), shard["maxlen"])
+        _check_grammar(shard["family"], [a[f"h{i}"] for i in range(5)][:n], shard.get("perm", 0), shard["maxlen"], a.get("rev", False))
     except Violation as e:
         return str(e)
     except Reject:
